@@ -252,7 +252,17 @@ pub fn all_params(tier: Tier) -> Vec<(Params, usize)> {
     // black-holing peers (stop answering AND reading) with an upload in progress, for T >= I
     for (i, t) in [(1u64, 1u64), (2, 3), (2, 5), (5, 20)] {
         for k in 1..=2u32 {
-            v.push((Params { interval_ms: i * 1000, timeout_ms: t * 1000, delay_ms: 1, silence: Silence::BlackholeAfter(k), traffic: true, huge_interval: false, huge_timeout: false }, if thorough { 1 } else { 0 }));
+            // round trips: 2 ms, and (where the timeout allows) longer than one interval, so that the last answer is still
+            // on its way when the next request's write stalls
+            let mut delays = vec![1u64];
+            for rtt in [i * 1000 + 400, 2 * i * 1000 + 400] {
+                if rtt + 200 < t * 1000 {
+                    delays.push(rtt / 2);
+                }
+            }
+            for d in delays {
+                v.push((Params { interval_ms: i * 1000, timeout_ms: t * 1000, delay_ms: d, silence: Silence::BlackholeAfter(k), traffic: true, huge_interval: false, huge_timeout: false }, if thorough && d == 1 { 1 } else { 0 }));
+            }
         }
     }
     // the largest values the command line accepts
